@@ -53,6 +53,8 @@ func main() {
 				fmt.Printf("      %-28s min=%d  %s\n", r.Name, r.Min, r.Doc)
 			}
 		}
+	case "paths":
+		os.Exit(cmdPaths(os.Args[2:]))
 	case "explain":
 		os.Exit(cmdExplain(os.Args[2:]))
 	default:
